@@ -1,5 +1,285 @@
-import DefconModel.Pen
+/-
+C13 — Pen round trips and glyph copies are faithful and independent.
+
+Property theorems about M-Pen (`DefconModel/Pen.lean`, the executable model of defcon's pens,
+`Glyph.drawPoints/draw/getPointPen/getPen`, `copyDataFromGlyph`, `Layer.insertGlyph`,
+`decomposeComponent(s)` and the fontTools pieces they use).  Spec-side definitions (`identsOf`,
+`Valid`, `obs`, `dedupe`, `flatten`, …) are in `Spec/Pen.lean`, helper lemmas in `Lemmas/Pen.lean`.
+
+Coordinates range over an arbitrary type `R`; theorems that need arithmetic hold over every
+commutative ring (so over ℤ and ℚ); the examples are evaluated over `Int`.
+
+NOT a theorem here: INDEPENDENCE of a copy ("shares no mutable state").  Lean values are immutable,
+so the statement has no content for the model; it is checked on the implementation only
+(harness/props/c13.py, `oracle_independence`) and labelled correspondence-only in the evidence.
+
+The model of `_decomposeComponent` is that of the code WITH repo_fixes/C13-decompose-shallow.diff
+(the unfixed code raises AssertionError for a shallow-loaded glyph whose own identifiers recur in
+the base glyph).
+-/
+import DefconModel.Lemmas.Pen
+
 namespace DefconModel.Props.C13
 open DefconModel DefconModel.Pen
-theorem placeholder : True := trivial
+
+variable {R : Type}
+
+/-! ## 1. Point-pen round trip: `build (draw o) = o` -/
+
+/-- Drawing ANY outline (any contours: open, closed, off-curve only, empty, any point types, smooth
+flags, names; any components and transformations; identifiers anywhere) with a point pen into a glyph
+that holds no shallow contours appends exactly that outline — same contours, points, types, smooth
+flags, names, identifiers, components, transformations — and registers exactly its identifiers,
+provided no identifier is used twice (in the glyph or in the outline). -/
+theorem build_draw (g : Glyph R) (cs : List (Contour R)) (ks : List (Component R)) (hs : g.shallow = none)
+    (h : (g.ids ++ identsOf cs ks).Nodup) :
+    build false (cs.flatMap drawContour ++ ks.flatMap drawComponent) g =
+      .ok { g with contours := g.contours ++ cs, components := g.components ++ ks,
+                   ids := g.ids ++ identsOf cs ks } :=
+  build_outline g cs ks hs h
+
+section Fresh
+variable [OfNat R 0] [OfNat R 1]
+
+/-- Into an EMPTY glyph: the rebuilt glyph has exactly the drawn outline, and a recording pen sees the
+same call stream from the rebuilt glyph as from the source. -/
+theorem build_draw_empty (n : Option String) (cs : List (Contour R)) (ks : List (Component R))
+    (h : (identsOf cs ks).Nodup) :
+    ∃ g', build false (cs.flatMap drawContour ++ ks.flatMap drawComponent) (Glyph.fresh n) = .ok g' ∧
+      g'.contours = cs ∧ g'.components = ks ∧ g'.ids = identsOf cs ks ∧
+      g'.draw = cs.flatMap drawContour ++ ks.flatMap drawComponent := by
+  refine ⟨_, build_outline (Glyph.fresh n) cs ks rfl (by simpa [Glyph.fresh] using h), ?_, ?_, ?_, ?_⟩ <;>
+    simp [Glyph.fresh, Glyph.draw]
+
+/-- The same for a glyph in ANY source state (new, shallow-loaded, fully loaded): drawing it into an
+empty glyph reproduces its outline and its call stream. -/
+theorem rebuild_any_state (n : Option String) (src : Glyph R) (h : (identsOf src.outline src.components).Nodup) :
+    ∃ g', build false src.draw (Glyph.fresh n) = .ok g' ∧
+      g'.contours = src.outline ∧ g'.components = src.components ∧ g'.draw = src.draw := by
+  obtain ⟨g', h1, h2, h3, _, h5⟩ := build_draw_empty n src.outline src.components h
+  exact ⟨g', by rw [draw_eq_outline]; exact h1, h2, h3, by rw [h5, draw_eq_outline]⟩
+
+/-- A single contour / a single component drawn into an empty glyph. -/
+theorem build_draw_contour (n : Option String) (c : Contour R) (h : (present c.slots).Nodup) :
+    ∃ g', build false (drawContour c) (Glyph.fresh n) = .ok g' ∧ g'.contours = [c] ∧ g'.components = [] ∧
+      g'.draw = drawContour c := by
+  obtain ⟨g', h1, h2, h3, _, h5⟩ := build_draw_empty n [c] ([] : List (Component R))
+    (by simpa [identsOf, slotsOf, compSlots] using h)
+  exact ⟨g', by simpa using h1, h2, h3, by simpa using h5⟩
+
+theorem build_draw_component (n : Option String) (k : Component R) :
+    ∃ g', build false (drawComponent k) (Glyph.fresh n) = .ok g' ∧ g'.contours = [] ∧ g'.components = [k] ∧
+      g'.draw = drawComponent k := by
+  obtain ⟨g', h1, h2, h3, _, h5⟩ := build_draw_empty n ([] : List (Contour R)) [k]
+    (by cases hk : k.ident <;> simp [identsOf, slotsOf, compSlots, hk])
+  exact ⟨g', by simpa using h1, h2, h3, by simpa using h5⟩
+
+/-- The hypothesis is exact: an outline is accepted by an empty glyph IFF its identifiers are pairwise
+distinct (the code asserts on the first repeated one). -/
+theorem build_draw_accepts_iff (n : Option String) (cs : List (Contour R)) (ks : List (Component R)) :
+    (∃ g', build false (cs.flatMap drawContour ++ ks.flatMap drawComponent) (Glyph.fresh n) = .ok g') ↔
+      (identsOf cs ks).Nodup := by
+  constructor
+  · rintro ⟨g', h⟩
+    unfold build at h
+    rw [run_eq_runCore false _ _ rfl] at h
+    cases hr : runCore false (cs.flatMap drawContour ++ ks.flatMap drawComponent) ⟨Glyph.fresh n, none⟩ with
+    | error x => simp [hr, bind, Except.bind] at h
+    | ok s' =>
+      have := (runCore_false_ids hr (by simp [Glyph.fresh])).2
+      simpa [Glyph.fresh, evSlots_append, evSlots_contours, evSlots_components, identsOf] using this
+  · intro h
+    obtain ⟨g', h1, _⟩ := build_draw_empty n cs ks h
+    exact ⟨g', h1⟩
+
+end Fresh
+
+/-- Whatever a strict pen accepts, the registry afterwards is the old one plus exactly the identifiers
+the stream carried, without repetition. -/
+theorem strict_pen_registers_exactly (evs : List (Ev R)) (s s' : PenSt R)
+    (h : runCore false evs s = .ok s') (hn : s.g.ids.Nodup) :
+    s'.g.ids = s.g.ids ++ present (evSlots evs) ∧ s'.g.ids.Nodup := by
+  obtain ⟨h1, h2⟩ := runCore_false_ids h hn
+  exact ⟨h1, h1 ▸ h2⟩
+
+/-! ## 2. Shallow-loaded sources -/
+
+/-- A glyph draws the same call stream whether its contours are still the raw tuples stored by the
+loading pen or have been deepened into contour objects; deepening yields exactly the outline. -/
+theorem drawShallow_eq (g g' : Glyph R) (raws : List (RawContour R)) (hs : g.shallow = some raws)
+    (hinv : g.contours = []) (hn : g.ids.Nodup) (h : deepen g = .ok g') :
+    g'.draw = g.draw ∧ g'.shallow = none ∧ g'.contours = g.outline ∧ g'.components = g.components := by
+  obtain ⟨_, rfl⟩ := deepen_result hs hn h
+  cases raws with
+  | nil => simp [Glyph.draw, Glyph.outline, hs, hinv, slotsOf]
+  | cons c cs => simp [Glyph.draw, Glyph.outline, hs, hinv, drawRaw_eq]
+
+/-- Deepening succeeds exactly when the stored identifiers are new and distinct. -/
+theorem deepen_accepts (g : Glyph R) (raws : List (RawContour R)) (hs : g.shallow = some raws)
+    (h : (g.ids ++ present (slotsOf (raws.map RawContour.toContour))).Nodup) :
+    ∃ g', deepen g = .ok g' := ⟨_, deepen_ok hs h⟩
+
+section Fresh
+variable [OfNat R 0] [OfNat R 1]
+
+/-- Every source state shows the same data: for valid content, the glyph assembled through the API
+(`new`), the glyph as `Layer.loadGlyph` leaves it (`shallow`) and the loaded glyph after its contours
+were touched (`full`) all exist and have the content's observable data and call stream. -/
+theorem source_states_agree (n : Option String) (c : Content R) (h : c.Valid) :
+    ∃ gNew gShallow gFull,
+      Glyph.ofContent (Glyph.fresh n) c = .ok gNew ∧
+      Glyph.load (Glyph.fresh n) c = .ok gShallow ∧
+      deepen gShallow = .ok gFull ∧
+      gNew.obs = c.obs ∧ gShallow.obs = c.obs ∧ gFull.obs = c.obs ∧
+      gShallow.shallow = some (c.contours.map Contour.toRaw) ∧ gFull.shallow = none ∧ gFull.contours = c.contours := by
+  have hl := load_fresh n c h
+  have hperm : ((present (compSlots c.components) ++ present (c.guidelines.map (·.ident)) ++
+      present (c.anchors.map (·.ident))) ++ present (slotsOf c.contours)).Nodup := by
+    have h' := h
+    unfold Content.Valid Content.allIdents identsOf at h'
+    exact (perm_load _ _ _ _).nodup_iff.mpr (by simpa using h')
+  refine ⟨_, _, _, ofContent_fresh n c h, hl, deepen_ok rfl ?hnd, ?_, ?_, ?_, rfl, rfl, ?_⟩
+  case hnd => simpa [List.append_assoc] using hperm
+  · simp [Glyph.obs, Content.obs, Glyph.draw, Content.draw]
+  · simp only [Glyph.obs, Content.obs, draw_eq_outline, Content.draw]
+    rw [outline_of_shallow (raws := c.contours.map Contour.toRaw) rfl rfl]
+    simp
+  · simp [Glyph.obs, Content.obs, Glyph.draw, Content.draw]
+  · simp
+
+/-! ## 3. Copies -/
+
+/-- `copyDataFromGlyph` into a fresh glyph: for a valid source in ANY state the copy exists, every
+observable datum (width, height, unicodes, note, image, anchors, guidelines, lib, the recorded pen
+stream) equals the source's, the name is the destination's own, and the copy is not shallow. -/
+theorem copy_equal (n : Option String) (src : Glyph R) (h : src.Valid) :
+    ∃ d, copyData (Glyph.fresh n) src = .ok d ∧ d.obs = src.obs ∧ d.name = n ∧
+      d.shallow = none ∧ d.contours = src.outline ∧ d.components = src.components ∧ d.ids = src.allIdents := by
+  refine ⟨_, copy_fresh n src h, ?_, rfl, rfl, rfl, rfl, rfl⟩
+  simp [Glyph.obs, draw_eq_outline, Glyph.outline]
+
+/-- `Layer.insertGlyph(glyph, name)` (same layer, another layer, another font): the layer then holds,
+under `name`, a glyph equal to the source in every observable datum; other entries are untouched. -/
+theorem insert_equal (l : Layer R) (src : Glyph R) (nm : String) (h : src.Valid) :
+    ∃ l' d, insertGlyph l src (some nm) = .ok (l', d) ∧ d.obs = src.obs ∧ d.name = some nm ∧
+      AL.get? l' nm = some d ∧ ∀ other, other ≠ nm → AL.get? l' other = AL.get? l other := by
+  obtain ⟨d, h1, h2, h3, _⟩ := copy_equal (some nm) src h
+  refine ⟨AL.set l nm d, d, ?_, h2, h3, by simp, ?_⟩
+  · simp [insertGlyph, h1, bind, Except.bind]
+  · intro other ho
+    exact AL.get?_set_ne l nm other d (fun e => ho e.symm)
+
+/-- A copy of a copy is a copy: copying is idempotent on observable data. -/
+theorem copy_copy (n m : Option String) (src d : Glyph R) (h : src.Valid)
+    (hd : copyData (Glyph.fresh n) src = .ok d) :
+    ∃ e, copyData (Glyph.fresh m) d = .ok e ∧ e.obs = src.obs := by
+  obtain ⟨d', h1, h2, _, h4, h5, h6, _⟩ := copy_equal n src h
+  rw [hd] at h1
+  cases h1
+  have hv : d.Valid := by
+    have hga : d.guidelines = src.guidelines ∧ d.anchors = src.anchors := by
+      have e1 := congrArg Obs.guidelines h2
+      have e2 := congrArg Obs.anchors h2
+      exact ⟨e1, e2⟩
+    have ho : d.outline = src.outline := by simp [Glyph.outline, h4, h5]
+    unfold Glyph.Valid Glyph.allIdents at h ⊢
+    rw [ho, hga.1, hga.2, h6]
+    exact h
+  obtain ⟨e, k1, k2, _⟩ := copy_equal m d hv
+  exact ⟨e, k1, k2.trans h2⟩
+
+end Fresh
+
+/-! ## 4. Decomposition -/
+
+/-- With the skip flag nothing is ever rejected, and the registry stays duplicate-free. -/
+theorem skip_pen_never_rejects (cs : List (Contour R)) (g : Glyph R) (hs : g.shallow = none) (hn : g.ids.Nodup) :
+    ∃ g', build true (cs.flatMap drawContour) g = .ok g' ∧ g'.ids.Nodup := by
+  obtain ⟨cs', h1, h2, _⟩ := runCore_contours_skip cs g
+  refine ⟨_, by unfold build; rw [run_eq_runCore true _ _ hs, h1]; rfl, ?_⟩
+  simp only [h2]
+  exact nodup_dedupe g.ids (slotsOf cs) hn
+
+
+/-- what removing the component does -/
+theorem removeComponentAt_spec (g : Glyph R) (idx : Nat) (k : Component R) (hk : g.components[idx]? = some k) :
+    (removeComponentAt g idx).components = g.components.eraseIdx idx ∧
+    (removeComponentAt g idx).contours = g.contours ∧
+    (removeComponentAt g idx).ids = (match k.ident with | none => g.ids | some i => g.ids.erase i) ∧
+    (removeComponentAt g idx).obs.width = g.obs.width ∧ (removeComponentAt g idx).anchors = g.anchors ∧
+    (removeComponentAt g idx).guidelines = g.guidelines ∧ (removeComponentAt g idx).lib = g.lib := by
+  cases hki : k.ident <;> simp [removeComponentAt, hk, hki, Glyph.obs]
+
+section Ring
+variable [Lean.Grind.CommRing R]
+
+/-- fontTools' `Transform.transform` composes: `t.transform u` maps a point like `u` then `t`. -/
+theorem transform_composes (t u : Transform R) (x y : R) :
+    (t.transform u).apply x y = t.apply (u.apply x y).1 (u.apply x y).2 :=
+  Transform.transform_apply t u x y
+
+/-- the default transformation changes nothing; composition is associative with the identity as unit -/
+theorem transform_monoid (a b c : Transform R) (x y : R) :
+    (Transform.id : Transform R).apply x y = (x, y) ∧
+    (Transform.id : Transform R).transform a = a ∧ a.transform (Transform.id : Transform R) = a ∧
+    (a.transform b).transform c = a.transform (b.transform c) :=
+  ⟨Transform.apply_id x y, Transform.id_transform a, Transform.transform_id a, Transform.transform_assoc a b c⟩
+
+/-- What "recursively" means: the flattened outline of a glyph under `t` is its flattened outline
+mapped through `t` — so a component nested under transformations `t₁, t₂, …` contributes its base
+glyph's points under the composed affine map `t₁ ∘ t₂ ∘ …`. -/
+theorem flatten_under (fuel : Nat) (l : Layer R) (b : String) (t : Transform R) :
+    flatten fuel l b t = (flatten fuel l b (Transform.id : Transform R)).map (·.map (Contour.transform t)) :=
+  flatten_transform fuel l b t
+
+/-- Acyclic component references (some rank decreases along every reference): flattening terminates
+with any fuel above the glyph's rank, and more fuel never changes the answer. -/
+theorem flatten_terminates (l : Layer R) (rank : String → Nat) (hac : Acyclic l rank) (fuel : Nat)
+    (b : String) (t : Transform R) (h : rank b < fuel) :
+    ∃ r, flatten fuel l b t = some r ∧ flatten (fuel + 1) l b t = some r := by
+  have := flatten_isSome_of_acyclic hac fuel b t h
+  cases hf : flatten fuel l b t with
+  | none => simp [hf] at this
+  | some r => exact ⟨r, rfl, flatten_fuel_succ fuel l b t r hf⟩
+
+variable [DecidableEq R]
+
+/-- The decomposing pen (`DecomposeComponentPointPen`, wrapped in `TransformPointPen`s as the code does,
+including its "default transformation ⇒ no wrapper" shortcut) feeds the glyph pen exactly the drawing
+of the flattened outline. -/
+theorem decompose_pen_stream (fuel : Nat) (l : Layer R) (b : String) (t : Transform R) :
+    expand fuel l b t = (flatten fuel l b t).map (·.flatMap drawContour) :=
+  expand_eq_flatten fuel l b t
+
+/-- `decomposeComponent`: in a glyph without shallow contours, decomposing the component at `idx`
+(base `k.base`, transformation `k.t`, base outline flattening to `F`) never fails; it appends contours
+`cs'` that are `F` in everything but identifiers (same points, coordinates under the composed maps,
+types, smooth flags, names, same order), whose identifier slots are those of `F` with every
+identifier already in use — in the glyph or earlier in `F` — dropped; and it removes the component
+(and frees its identifier).  Nothing else changes. -/
+theorem decompose_spec (fuel : Nat) (l : Layer R) (g : Glyph R) (idx : Nat) (k : Component R)
+    (F : List (Contour R)) (hs : g.shallow = none) (hk : g.components[idx]? = some k)
+    (hF : flatten fuel l k.base k.t = some F) :
+    ∃ cs', decomposeAt fuel l g idx =
+        .ok (removeComponentAt { g with contours := g.contours ++ cs', ids := g.ids ++ present (slotsOf cs') } idx) ∧
+      cs'.map Contour.eraseIds = F.map Contour.eraseIds ∧
+      slotsOf cs' = dedupe g.ids (slotsOf F) := by
+  obtain ⟨cs', h1, h2, h3⟩ := runCore_contours_skip F g
+  refine ⟨cs', ?_, h3, h2⟩
+  unfold decomposeAt
+  simp only [deepen_of_not_shallow hs, bind, Except.bind, hk, expand_eq_flatten, hF, Option.map_some]
+  unfold build
+  rw [run_eq_runCore true _ _ hs, h1]
+  rfl
+
+/-- The source state does not matter: a shallow-loaded glyph is deepened first, then decomposed like
+the fully loaded one (this is what repo_fixes/C13-decompose-shallow.diff establishes). -/
+theorem decompose_shallow (fuel : Nat) (l : Layer R) (g g' : Glyph R) (idx : Nat) (h : deepen g = .ok g')
+    (hs' : g'.shallow = none) :
+    decomposeAt fuel l g idx = decomposeAt fuel l g' idx := by
+  unfold decomposeAt
+  simp [h, deepen_of_not_shallow hs', bind, Except.bind]
+
+end Ring
+
 end DefconModel.Props.C13
